@@ -101,7 +101,10 @@ def run_case(case):
     obs = {}
     with pz.scratch("vf-c01-") as d, K.io_knobs(case["block"], case["chunk"]):
         try:
-            path, obj, data = K.write_session(d, members, case["chain"], case["password"], case["header"], case["target"], case["entry"], case["volume"])
+            # exclusive creation is a way of creating, too (mode 'x': the archive must not exist yet)
+            xmode = case["target"] == "path" and case.get("seed_x", len(case["members"])) % 3 == 0
+            path, obj, data = K.write_session(d, members, case["chain"], case["password"], case["header"], case["target"], case["entry"], case["volume"], mode=("x" if xmode else "w"))
+            obs["sessions_mode_x"] = obs.get("sessions_mode_x", 0) + (1 if xmode else 0)
         except K.Rejected as e:
             return K.result("held", cell="rejected|" + G.chain_label(case["chain"]), nontrivial=False, obs={"rejected_by_writer": 1},
                             sample={"chain": G.chain_label(case["chain"]), "rejected": str(e)[:80]})
